@@ -36,6 +36,9 @@ type Sched struct {
 	deadlock bool
 	// Watchdog is how long the running thread may take to reach its next point.
 	Watchdog time.Duration
+	// FreeGrace: how long "no managed thread is enabled" must last before it counts as a deadlock (0: at once). Set
+	// where goroutines the scheduler does not own can hold a modelled lock for a moment.
+	FreeGrace time.Duration
 }
 
 // Active says whether a managed thread is currently running (hooks use it to ignore setup code).
@@ -73,6 +76,19 @@ func (s *Sched) decide(last int) (next *thread, deadlock bool) {
 			continue
 		}
 		en = append(en, t.id)
+	}
+	if len(en) == 0 && s.FreeGrace > 0 {
+		// Nothing is enabled right now. Where goroutines the scheduler does not own take part (a server's connection
+		// goroutines), one of them may hold what the managed threads wait for and will let go of it by itself: only what
+		// stays blocked for FreeGrace is a deadlock.
+		for waited := time.Duration(0); len(en) == 0 && waited < s.FreeGrace; waited += time.Millisecond {
+			time.Sleep(time.Millisecond)
+			for _, t := range s.threads {
+				if !t.done && (t.enabled == nil || t.enabled()) {
+					en = append(en, t.id)
+				}
+			}
+		}
 	}
 	if len(en) == 0 {
 		return nil, true
